@@ -240,4 +240,75 @@ theorem locateErrors_self {b0 : List Nat} {rd : Round} {cs : List Nat} {res : Li
       rw [locateErrors_frame hxs (hcs c (List.mem_cons_self ..)) hin]
       exact getSlot_setRes_self (hcs c (List.mem_cons_self ..)) hl
 
+/-! ### calls failed alone during region location (their own context is done) -/
+
+theorem mem_liveCalls {rd : Round} {batch : List Nat} {c : Nat} :
+    c ∈ liveCalls rd batch ↔ c ∈ batch ∧ ownGone rd c = false := by
+  simp [liveCalls, List.mem_filter]
+
+theorem liveCalls_sub {rd : Round} {batch : List Nat} {c : Nat} (h : c ∈ liveCalls rd batch) : c ∈ batch :=
+  (mem_liveCalls.mp h).1
+
+theorem ownGone_locate {rd : Round} {c : Nat} (h : ownGone rd c = true) :
+    rd.locate c = .error (.ownCtx c) := by
+  simp only [ownGone] at h
+  split at h
+  · rename_i d hd
+    have : d = c := by simpa using h
+    rw [hd, this]
+  · cases h
+
+theorem ownGone_of_locate {rd : Round} {c : Nat} (h : rd.locate c = .error (.ownCtx c)) :
+    ownGone rd c = true := by
+  simp [ownGone, h]
+
+theorem ownGone_not_locOk {rd : Round} {c : Nat} (h : ownGone rd c = true) : locOk rd c = false := by
+  simp [locOk, ownGone_locate h]
+
+/-- `findClients` returned `ok == true`: every call it kept has a region client -/
+theorem locOk_of_live {rd : Round} {batch : List Nat} {c : Nat}
+    (hany : batch.any (fun c => !locOk rd c && !ownGone rd c) = false) (hc : c ∈ liveCalls rd batch) :
+    locOk rd c = true := by
+  obtain ⟨hcb, hg⟩ := mem_liveCalls.mp hc
+  have := List.any_eq_false.mp hany c hcb
+  simpa [hg] using this
+
+theorem liveCalls_idem (rd : Round) (batch : List Nat) :
+    liveCalls rd (liveCalls rd batch) = liveCalls rd batch := by
+  simp [liveCalls, List.filter_filter]
+
+theorem any_ownGone_live (rd : Round) (batch : List Nat) : (liveCalls rd batch).any (ownGone rd) = false := by
+  rw [List.any_eq_false]
+  intro c hc
+  simp [(mem_liveCalls.mp hc).2]
+
+/-- no location failure at all: nothing is taken out of the round -/
+theorem liveCalls_of_all_ok {rd : Round} {batch : List Nat} (h : batch.any (fun c => !locOk rd c) = false) :
+    liveCalls rd batch = batch ∧ batch.any (ownGone rd) = false := by
+  have hall : ∀ c ∈ batch, ownGone rd c = false := by
+    intro c hc
+    have h1 := List.any_eq_false.mp h c hc
+    cases hg : ownGone rd c
+    · rfl
+    · rw [ownGone_not_locOk hg] at h1; simp at h1
+  refine ⟨?_, ?_⟩
+  · simp only [liveCalls]
+    rw [List.filter_eq_self]
+    intro c hc; simp [hall c hc]
+  · rw [List.any_eq_false]
+    intro c hc; simp [hall c hc]
+
+theorem locateErrors_id {b0 : List Nat} {rd : Round} {cs : List Nat} {res : List Slot}
+    (h : ∀ c ∈ cs, locOk rd c = true) : locateErrors b0 rd cs res = res := by
+  induction cs generalizing res with
+  | nil => rfl
+  | cons c cs ih =>
+    have hc := h c (List.mem_cons_self ..)
+    simp only [locOk] at hc
+    simp only [locateErrors]
+    split
+    · rename_i e he; rw [he] at hc; cases hc
+    · exact ih (fun x hx => h x (List.mem_cons_of_mem _ hx))
+
+
 end GV.Batch
